@@ -18,13 +18,18 @@ Clause(t) ==
      ELSE IF ~t.normok THEN "C09.LogUniformDensityNormalised"
      ELSE ""
   ELSE IF t.kind = "sigmak" THEN
-     (IF t.obs # SigmaK(t.sK0, t.p3, t.r, t.maxK) THEN "C09.KScaleRuleWithCap" ELSE "")
+     (IF t.obs # SigmaK(t.sK0, t.p3, t.r, t.maxK) THEN "C09.KScaleRuleWithCap"
+      ELSE IF t.muobs # KMean(t.mu) THEN "C09.KPriorMeanAsDeclared"
+      ELSE IF \E j \in DOMAIN t.zs : t.zsq[j] # ZSq(t.zs[j]) THEN "C09.KLogDensityIsNormalAboutDeclaredMean"
+      ELSE "")
   ELSE IF t.kind = "kipping" THEN
      (IF <<t.alpha, t.beta>> # (IF t.which = "global" THEN KippingGlobal ELSE IF t.which = "short" THEN KippingShort ELSE KippingLong)
       THEN "C09.KippingBetaParameters" ELSE "")
   ELSE IF t.kind = "lnprior" THEN
      IF ~t.hascol THEN "C09.LnPriorColumnPresent"
      ELSE IF ToSet(t.cols) # TermSet(t.gl, t.poly, t.noff, TRUE) \cup {"ln_prior"} THEN "C09.SampledColumns"
+     ELSE IF \E j \in DOMAIN t.vdecl : t.vobs[j] # TrendScale(t.vdecl[j]) THEN "C09.TrendPriorScaleAsDeclared"
+     ELSE IF t.offobs # t.offdecl THEN "C09.OffsetPriorAsDeclared"
      ELSE IF ~t.insupport THEN "C09.DrawsInsideSupport"
      ELSE IF ~t.constok THEN "C09.LnPriorIsJointLogDensityOfTheRow"
      ELSE IF ~t.kcondok THEN "C09.KDrawnGivenTheRowsOwnPeriodAndEccentricity"
